@@ -928,6 +928,14 @@ func TestVerifC20_Witnesses(t *testing.T) {
 					return err
 				}
 			}
+			// the twelfth failure is answered and the service stopped at once, without waiting for the
+			// next attempt to arrive: the stop falls between two attempts
+			if s := m.subs[0]; s.cur != nil {
+				c := s.cur
+				s.cur = nil
+				m.failed++
+				c.rel <- c20Outcome{err: c20Err("transient")}
+			}
 			return m.stop(0, true)
 		}},
 		{c20SigNotFound, func(m *c20Machine) error {
